@@ -67,6 +67,11 @@ impl Session {
 		step(self.wal.as_mut().unwrap().rotate())
 	}
 
+	/// `Wal::close` (syncs the active writer unless an earlier write failed, then fsyncs the directory).
+	pub fn close(&mut self) -> Step {
+		step(self.wal.as_mut().unwrap().close())
+	}
+
 	/// The segment files present in the directory, oldest first.
 	pub fn segments(&self) -> Vec<PathBuf> {
 		let ids = list_segment_ids(&self.dir, Some("wal")).unwrap_or_default();
